@@ -672,6 +672,23 @@ func fmtInputs(cfg Config, nGen int, withStray bool) []fmtInput {
 	for _, s := range fmtCorpus {
 		ins = append(ins, fmtInput{s, "handwritten"})
 	}
+	// map literals whose keys are keywords / type names (allowed as keys), single- and multi-line, with comments inside the
+	// values; and the same with a key REPEATED (not an accepted text on the unchanged tree: skipped as a parse error - if a
+	// change makes it accepted, the formatter must still reproduce every token)
+	kws := []string{"end", "if", "for", "while", "else", "return", "break", "on", "num", "string", "bool", "any", "true", "and", "range"}
+	for i := 0; i < 12; i++ {
+		k1, k2 := kws[cfg.Rng.Intn(len(kws))], kws[cfg.Rng.Intn(len(kws))]
+		for _, dup := range []bool{false, true} {
+			a, b := k1, k2
+			if dup {
+				b = k1
+			} else if a == b {
+				continue
+			}
+			ins = append(ins, fmtInput{fmt.Sprintf("m := {%s:1 %s:2 x:3}\nprint m m.%s\n", a, b, a), "keyword-keys"})
+			ins = append(ins, fmtInput{fmt.Sprintf("m := {\n    %s:[1 // one\n        2]\n    %s:[3]\n    // tail\n}\nprint m\n", a, b), "keyword-keys-multiline"})
+		}
+	}
 	corpus := CorpusPrograms()
 	for _, s := range corpus {
 		ins = append(ins, fmtInput{s, "repo-corpus"})
